@@ -158,14 +158,21 @@ def to_ratio(t, names, memo, rmemo, positive):
 # ------------------------------------------------------------------ change of variables
 
 def stage1(p, old=("a", "q", "c", "s"), new=("A", "Bx", "By")):
-    """a^i q^j c^k s^l -> A^(i-j) Bx^k By^l   (needs j == k+l, i >= j)"""
-    r = {}
+    """a^i q^j c^k s^l = A^(i-j) Bx^k By^l L^(j-k-l)  with L = |B| = a q.  When every monomial has j == k+l and
+    i >= j (all the geometry atoms) L does not occur; otherwise the atom is multiplied by the positive monomial
+    that clears negative powers of A and L, and L is kept as a variable (the converter then adds L > 0,
+    L^2 = Bx^2 + By^2)."""
+    exps = []
     for m, coef in p.items():
         d = dict(m)
         i, j, k, l = (d.pop(n, 0) for n in old)
-        if j != k + l or i < j:
-            raise NotPoly("monomial a^%d q^%d c^%d s^%d" % (i, j, k, l))
-        for n, e in zip(new, (i - j, k, l)):
+        exps.append((d, coef, i - j, k, l, j - k - l))
+    minA = min([e[2] for e in exps] + [0])
+    minL = min([e[5] for e in exps] + [0])
+    r = {}
+    for d, coef, eA, k, l, eL in exps:
+        d = dict(d)
+        for n, e in zip(new + ("L",), (eA - minA, k, l, eL - minL)):
             if e:
                 d[n] = d.get(n, 0) + e
         mm = tuple(sorted(d.items()))
@@ -334,7 +341,7 @@ def convert_skel(sk, dx, dy, memo):
     elif sk[0] == "not":
         r = ("not", convert_skel(sk[1], dx, dy, memo))
     elif sk[0] == "atom" and isinstance(sk[2], tuple) and sk[2][0] == "old":
-        r = ("atom", sk[1], stage2(stage1(sk[2][1]), dx, dy))
+        r = ("atom", sk[1], reduce_circle(stage2(stage1(sk[2][1]), dx, dy)))
     else:
         r = sk
     memo[k] = r
@@ -434,6 +441,12 @@ class Converter:
         # positivity facts the substitution relies on (part of the cell domain: a >= 0.01, s >= 1/2, q >= 0.1)
         out.append(("atom", "flt", pscale(pvar("A"), -1)))
         out.append(("atom", "flt", pscale(pvar("By"), -1)))
+        vs = set()
+        for sk in out:
+            pvars(sk, vs)
+        if "L" in vs:
+            out.append(("atom", "flt", pscale(pvar("L"), -1)))
+            out.append(("atom", "feq", padd(pmul(pvar("L"), pvar("L")), B2, -1)))
         return out, (dx, dy)
 
     def text(self, asserts):
@@ -475,6 +488,28 @@ class Converter:
 # ------------------------------------------------------------------ orientation intervals (branch and bound on theta)
 
 CIRCLE = {((("cth", 2),)): Fraction(1), ((("sth", 2),)): Fraction(1), (): Fraction(-1)}
+
+
+def reduce_circle(p):
+    """normal form modulo cth^2 + sth^2 = 1: sth^(2k+r) -> (1 - cth^2)^k sth^r.  Cross products of two vectors
+    rotated by the same angle lose their orientation dependence this way."""
+    if p == CIRCLE:
+        return p
+    if not any(n == "sth" and e >= 2 for m in p for n, e in m):
+        return p
+    one_minus = {(): Fraction(1), (("cth", 2),): Fraction(-1)}
+    r = {}
+    for m, coef in p.items():
+        d = dict(m)
+        e = d.pop("sth", 0)
+        if e >= 2:
+            if e % 2:
+                d["sth"] = 1
+            term = pmul({tuple(sorted(d.items())): coef}, ppow(one_minus, e // 2))
+        else:
+            term = {m: coef}
+        r = padd(r, term)
+    return r
 
 
 def split_theta(p):
